@@ -5,7 +5,7 @@ pub fn property() -> Property {
     Property {
         id: "C06",
         rule: "builder scenarios; oracle: the built fee is compared with the ledger minimum fee (a*size+b + ceil(ex-unit cost) + floor(tiered reference-script fee), exact arithmetic) of the transaction really signed by the ledger's required witness set (size recomputed by the engine after adding real vkey witnesses / bootstrap witnesses); set_fee is used exactly, set_min_fee is a lower bound. Non-trivial = built, >= 1 signature required, and an amount within 3 of a CBOR width boundary or >= 2 witness kinds; distinct by hash of the built bytes",
-        assumptions: vec!["scenarios: tape-decoded protocol parameters, keyring of 6 keys + 2 Byron roots, pools of 5 native and 5 Plutus scripts and 4 datums (overlaps between sources are common), a UTxO universe the scenario owns, and a sequence of builder operations (inputs by every public route, outputs, certificates of 17 shapes with key / native / Plutus credentials, withdrawals, mint and burn, votes, proposals, required signers, reference inputs, extra datums, auxiliary data, ttl, donation, collateral and its helper routes, fee requests, calc_script_data_hash, one of 7 balancing routes incl. the 4 coin-selection strategies), then build_tx / build / build_tx_unsafe".into(), "operations the library rejects with Err are recorded and skipped: the properties are conditional on success".into(), "UTxO values, owners and reference scripts come from the scenario's own map; sums, sizes, deposits, fees and hashes are recomputed from the emitted bytes by the engine (cbor.rs, ledger.rs), never asked from the library".into(), "a UTxO that carries a reference script is only spent through the add_regular_utxo route (the other input adders have no parameter to declare its script size)".into(), "required witnesses: payment keys of key-locked inputs and collateral, certificate authors per kind, withdrawal key credentials, voter key hashes, the body's required signers, hinted signers of a native script source or else every key hash in the script (the upper bound the builder documents), one bootstrap witness per distinct Byron address".into()],
+        assumptions: vec!["scenarios: tape-decoded protocol parameters, keyring of 6 keys + 2 Byron roots, pools of 5 native and 5 Plutus scripts and 4 datums, each also decoded from a second, non-canonical encoding (overlaps between sources are common; the Redeemer objects handed to the builder carry placeholder tags and indices; a reference input may be registered twice, plainly and with its script size), a UTxO universe the scenario owns, and a sequence of builder operations (inputs by every public route, outputs, certificates of 17 shapes with key / native / Plutus credentials, withdrawals, mint and burn, votes, proposals, required signers, reference inputs, extra datums, auxiliary data, ttl, donation, collateral and its helper routes, fee requests, calc_script_data_hash, one of 7 balancing routes incl. the 4 coin-selection strategies), then build_tx / build / build_tx_unsafe".into(), "operations the library rejects with Err are recorded and skipped: the properties are conditional on success".into(), "UTxO values, owners and reference scripts come from the scenario's own map; sums, sizes, deposits, fees and hashes are recomputed from the emitted bytes by the engine (cbor.rs, ledger.rs), never asked from the library".into(), "a UTxO that carries a reference script is only spent through the add_regular_utxo route (the other input adders have no parameter to declare its script size)".into(), "required witnesses: payment keys of key-locked inputs and collateral, certificate authors per kind, withdrawal key credentials, voter key hashes, the body's required signers, hinted signers of a native script source or else every key hash in the script (the upper bound the builder documents), one bootstrap witness per distinct Byron address".into()],
         subchecks: vec![SubCheck { name: "scenario", kind: Kind::Tape { quick: 400000, thorough: 10000000, max_len: 500 }, run: super::builder::c06_case }],
         crash_prone: false,
         max_reject_fraction: 0.1,
